@@ -508,10 +508,12 @@ example : bellPlusTab.Valid ∧ ket00Tab.Valid ∧ bellPlusTab.n = ket00Tab.n :=
 
 /-- the hypotheses of `overlap_spec_count_exact` are met by Φ⁺ against |00⟩ (rank 1 from `inner_product_exponent`): the
     theorem gives the count `2^1`, which is what the executable specification evaluates to -/
-example : (STab.ofTab bellPlusTab).commonCount (STab.ofTab ket00Tab) = 2 ^ 1 :=
-  overlap_spec_count_exact _ _ (good_of_check _ (by decide)) (good_of_check _ (by decide)) bell_indep.1 rfl 1
-    (inner_product_exponent bellPlusTab ket00Tab 1 (good_of_check _ (by decide)) (good_of_check _ (by decide))
-      (ok_of_check _ _ (by decide +kernel))).2.2
+example : (STab.ofTab bellPlusTab).commonCount (STab.ofTab ket00Tab) = 2 ^ 1 := by
+  have g1 : (STab.ofTab bellPlusTab).Good := good_of_check _ (by decide)
+  have g3 : (STab.ofTab ket00Tab).Good := good_of_check _ (by decide)
+  have hd : OverlapDim (STab.ofTab bellPlusTab) (STab.ofTab ket00Tab) 1 :=
+    (inner_product_exponent bellPlusTab ket00Tab 1 g1 g3 (ok_of_check _ _ (by decide +kernel))).2.2
+  exact overlap_spec_count_exact (STab.ofTab bellPlusTab) (STab.ofTab ket00Tab) g1 g3 bell_indep.1 rfl 1 hd
 
 /-- `overlap_spec_checker_exact` here evaluates to: orthogonal, two common elements with |00⟩ -/
 example : (STab.ofTab bellPlusTab).orthB (STab.ofTab bellMinusTab) = true ∧
